@@ -80,7 +80,7 @@ func c17Place(pos, long string, s1, s2 string, finalNL bool) string {
 	return t
 }
 
-var c17Cmds = []string{"generate entry", "generate include", "generate include-except", "generate cmdline", "format", "renumber-tests", "update-copyright", "update"}
+var c17Cmds = []string{"generate definition", "generate definition repeated", "generate entry", "generate include", "generate include-except", "generate cmdline", "format", "renumber-tests", "update-copyright", "update"}
 
 func C17(r *core.Run) {
 	dir := ""
@@ -129,6 +129,19 @@ func C17(r *core.Run) {
 			return true, ""
 		}
 		switch c.Cmd {
+		case "generate definition", "generate definition repeated":
+			// the long line does not exist in the file: it is the result of expanding a definition
+			def, use := "##!> define d "+long, "x{{d}}"
+			if c.Cmd == "generate definition repeated" {
+				k := 64
+				def, use = "##!> define d "+strings.Repeat("a", c.N/k), "x"+strings.Repeat("{{d}}", k)+strings.Repeat("a", c.N%k)
+			}
+			o := root.Generate(def + "\n" + c17Place(c.Pos, use, "sentinelone", "sentineltwo", c.FinalNL))
+			if o.Kind != inproc.OK {
+				return verdict(false, true, true, "", 0)
+			}
+			ok, why := matchAll(o.Out, "x"+long, "sentinelone", "sentineltwo")
+			return verdict(ok, false, true, why, len(o.Out))
 		case "generate entry":
 			o := root.Generate(c17Place(c.Pos, "x"+long, "sentinelone", "sentineltwo", c.FinalNL))
 			if o.Kind != inproc.OK {
